@@ -993,6 +993,18 @@ class Module(ABC):
             len(self._nodes_in_view)
             == self.base.ncomp_per_branch[self._branches_in_view[0]]
         ), "The number of compartments can only be set for an entire branch."
+        # The view must hold the current rows of the branch, in order (a view that was
+        # created before an earlier `set_ncomp()` points to outdated rows).
+        base_nodes = self.base.nodes
+        rows_of_branch = base_nodes.index[
+            base_nodes["global_branch_index"] == self._branches_in_view[0]
+        ].to_numpy()
+        if not np.array_equal(np.asarray(self._nodes_in_view), rows_of_branch):
+            raise ValueError(
+                "The view does not contain the current compartments of the branch in "
+                "order. Create the view after previous calls of `set_ncomp()` and do "
+                "not reorder its compartments."
+            )
 
         # Update all attributes that are affected by compartment structure.
         view = self.nodes.copy()
